@@ -94,6 +94,7 @@ func (eval Evaluator) ApplyEvaluationKey(ctIn *Ciphertext, evk *EvaluationKey, o
 
 		// Re-encryption to the same ring degree.
 	} else {
+		opOut.Resize(opOut.Degree(), level)
 		eval.applyEvaluationKey(level, ctIn, evk, opOut)
 	}
 
